@@ -158,4 +158,3 @@ func sanitize(s string) string {
 	r := strings.NewReplacer("(", "", ")", "", "*", "P", ":", "_", "/", "_", " ", "_")
 	return r.Replace(s)
 }
-
